@@ -226,3 +226,10 @@ def h3(ctx: Ctx) -> None:
     from .c12 import r1 as regeneration_rule
 
     regeneration_rule(ctx)
+
+
+@rule("C14.H4", "mechanism shared with C13: a hook is entered once, under its own times only, in buckets of their own", "T3 + T6 (same rule as C13.R4)", floor=3)
+def h4(ctx: Ctx) -> None:
+    from .c13 import check_registration
+
+    check_registration(ctx)
